@@ -60,7 +60,16 @@ def run_case(case):
     srcs = [event.Source(**omit(rng, "event.Source", trigger=t),
                          **({"path": (f"s{i}",)} if naming == "distinct" else {} if naming == "pathless" else {"path": ("irq",)}))
             for i, t in enumerate(trig)]
-    emap = event.EventMap()
+    if rng.random() < 0.3:
+        # a sizing pass first: the sources are added to a throw-away map that is dropped again before the real one is made
+        # (the new map may well be allocated where the old one was)
+        dry = event.EventMap()
+        for s in case["add_history"]:
+            dry.add(srcs[s])
+        dry.size
+        del dry
+    permuted = rng.random() < 0.15
+    emap = PriorityMap() if permuted else event.EventMap()
     first = []
     for s in case["add_history"]:
         emap.add(srcs[s])
@@ -72,8 +81,11 @@ def run_case(case):
         # dense, in order of first addition
         for k, s in enumerate(first):
             mon.eq("api_index", emap.index(srcs[s]), k, f"index of source s{s} (added {k}th)")
-        mon.eq("api_sources", [(id(a), b) for a, b in emap.sources()],
+        mon.eq("api_sources", sorted([(id(a), b) for a, b in emap.sources()], key=lambda p_: p_[1]) if permuted
+               else [(id(a), b) for a, b in emap.sources()],
                [(id(srcs[s]), k) for k, s in enumerate(first)], "sources()")
+        if permuted:
+            mon.count("maps_that_list_their_sources_in_another_order")
 
     mon.run(numbering)
     if mon.violations:
@@ -146,6 +158,14 @@ def run_case(case):
     return mon.result(nontrivial=st["nontrivial"], summary=summary)
 
 
+class PriorityMap(event.EventMap):
+    """A project subclass that lists its sources highest index first (priority order); the (source, index) pairs are the
+    library's."""
+
+    def sources(self):
+        yield from reversed(list(super().sources()))
+
+
 class EqSource(event.Source):
     """A project's own source class with value equality (two UARTs' "rx" events compare equal): event maps
     identify sources by identity."""
@@ -165,9 +185,16 @@ def run_api(case, rng):
     # several live maps over one pool of sources (a peripheral's own map, a SoC-level map merged from it, a
     # descriptive subset): a source may sit in more than one, at different positions
     nmaps = rng.choice([1, 2, 2, 3])
-    emaps = [event.EventMap() for _ in range(nmaps)]
     pool = [event.Source(trigger=rng.choice(["level", "rise", "fall"]), path=(f"p{i}",)) for i in range(5)]
     pool += [EqSource(rng.choice(["rx", "tx"]), trigger=rng.choice(["level", "rise"]), path=(f"e{i}",)) for i in range(3)]
+    if rng.random() < 0.3:
+        # some of the sources have been in a throw-away map before (a sizing pass, an abandoned build) that no longer exists
+        dry = event.EventMap()
+        for s_ in rng.sample(pool, rng.randint(1, len(pool))):
+            dry.add(s_)
+        del dry
+        mon.count("sources_that_were_in_a_dropped_map_before")
+    emaps = [event.EventMap() for _ in range(nmaps)]
     if case.get("pool", 8) > 8:
         # a big interrupt controller: hundreds of sources, mostly added one after the other
         pool += [event.Source(trigger="level", path=(f"q{i}",)) for i in range(case["pool"] - 8)]
